@@ -142,6 +142,62 @@ impl<I: Index> SimpleTermIndex<I> {
     }
 }
 
+#[cfg(feature = "verif_hooks")]
+impl<I: Index> SimpleTermIndex<I> {
+    /// Verification hook (feature `verif_hooks` only): checks the internal invariants of the index.
+    ///
+    /// * `t2i` and `i2t` are a bijection;
+    /// * for every atomic term, the strings of `i2t[i]` are *the very same memory* as the strings
+    ///   of the key that `t2i` maps to `i` (the entry of `i2t` borrows from its own index,
+    ///   not from another one).
+    pub fn verif_audit(&self) -> Result<(), String> {
+        fn strs<'x>(t: &'x SimpleTerm<'_>) -> Vec<&'x str> {
+            match t {
+                SimpleTerm::Iri(i) => vec![i.as_str()],
+                SimpleTerm::BlankNode(b) => vec![b.as_str()],
+                SimpleTerm::LiteralDatatype(l, d) => vec![&l[..], d.as_str()],
+                SimpleTerm::LiteralLanguage(l, t) => vec![&l[..], t.as_str()],
+                SimpleTerm::Variable(v) => vec![v.as_str()],
+                SimpleTerm::Triple(_) => vec![],
+            }
+        }
+        if self.t2i.len() != self.i2t.len() {
+            return Err(format!(
+                "t2i has {} entries, i2t has {}",
+                self.t2i.len(),
+                self.i2t.len()
+            ));
+        }
+        let mut seen = vec![false; self.i2t.len()];
+        for (key, i) in &self.t2i {
+            let i = i.into_usize();
+            if i >= self.i2t.len() {
+                return Err(format!("t2i maps a key to index {i}, beyond i2t"));
+            }
+            if seen[i] {
+                return Err(format!("two keys of t2i map to index {i}"));
+            }
+            seen[i] = true;
+            let (a, b) = (strs(key), strs(&self.i2t[i]));
+            if a.len() != b.len() {
+                return Err(format!("i2t[{i}] and its key are terms of different kinds"));
+            }
+            for (x, y) in a.iter().zip(b.iter()) {
+                if x.as_ptr() != y.as_ptr() || x.len() != y.len() {
+                    return Err(format!(
+                        "i2t[{i}] does not borrow from the key that t2i maps to {i} (key string at {:p}+{}, entry string at {:p}+{})",
+                        x.as_ptr(),
+                        x.len(),
+                        y.as_ptr(),
+                        y.len()
+                    ));
+                }
+            }
+        }
+        Ok(())
+    }
+}
+
 impl<I: Index> TermIndex for SimpleTermIndex<I> {
     type Term = SimpleTerm<'static>;
     type Index = I;
